@@ -194,13 +194,25 @@ def abstract_closed_quantifiers(fmls):
 
 
 def _check(hyps, extra, timeout_s, opts=None):
+    """one solver run; z3's own timeout is backed by a watchdog thread that interrupts the context (the sequence solver is
+    known to ignore `timeout`; without this one hanging stage would eat the whole budget of the portfolio)"""
+    import threading
     s = z3.Solver()
     s.set("timeout", int(timeout_s * 1000))
     for k, v in (opts or {}).items():
         s.set(k, v)
     s.add(*hyps)
     s.add(*extra)
-    return s, s.check()
+    timer = threading.Timer(timeout_s + 1.0, s.ctx.interrupt)
+    timer.daemon = True
+    timer.start()
+    try:
+        r = s.check()
+    except z3.Z3Exception:
+        r = z3.unknown
+    finally:
+        timer.cancel()
+    return s, r
 
 
 NOMBQI = {"smt.mbqi": False}
@@ -306,10 +318,11 @@ def _solve(i):
                 return i, "PROVED", f"z3+hints(hints + 0 of {len(ob.hyps) - nh0} hypotheses)", time.time() - t0, model, reason
         except Exception as ex:  # pragma: no cover
             reason += f" | hints-first: {ex}"
-    s, r = _check(ob.hyps, [neg], short)
+    first = min(short, 2)      # almost everything provable by the plain query is proved within a second; the filtered stages come next
+    s, r = _check(ob.hyps, [neg], first)
     if r == z3.unknown:
         reason = s.reason_unknown()
-        s1, r1 = _check(ob.hyps, [neg], short, NOMBQI)
+        s1, r1 = _check(ob.hyps, [neg], first, NOMBQI)
         if r1 == z3.unsat:
             return i, "PROVED", "z3(e-matching)", time.time() - t0, model, reason
         # relevance filter: fewer hypotheses is sound; irrelevant quantified hypotheses are what drowns the solver
